@@ -2,6 +2,8 @@ package metadata
 
 import (
 	"bytes"
+	"errors"
+	"io"
 
 	"github.com/ipfs/go-cid"
 	"github.com/multiformats/go-multicodec"
@@ -144,4 +146,81 @@ func VerifC11_EncodingsIndependent() {
 	verif_Assert(err == nil && bytes.Equal(again, keep), "encoding the same value again gives the same bytes")
 	againB, err := b.MarshalBinary()
 	verif_Assert(err == nil && bytes.Equal(againB, encB), "and so for the second value")
+}
+
+// c11app: an application-specific protocol (one flag byte after its code) that
+// some component registers in a context of its own
+type c11app struct {
+	code multicodec.Code
+	on   bool
+}
+
+func (p *c11app) ID() multicodec.Code { return p.code }
+func (p *c11app) MarshalBinary() ([]byte, error) {
+	b := varint.ToUvarint(uint64(p.code))
+	if p.on {
+		return append(b, 1), nil
+	}
+	return append(b, 0), nil
+}
+func (p *c11app) UnmarshalBinary(d []byte) error {
+	if len(d) == 0 || d[len(d)-1] > 1 {
+		return errors.New("c11app: malformed")
+	}
+	p.on = d[len(d)-1] == 1
+	return nil
+}
+func (p *c11app) ReadFrom(r io.Reader) (int64, error) {
+	buf := make([]byte, varint.UvarintSize(uint64(p.code))+1)
+	n, err := io.ReadFull(r, buf)
+	if err != nil {
+		return int64(n), err
+	}
+	return int64(n), p.UnmarshalBinary(buf)
+}
+
+// C11 ("for any collection of protocols, known or unknown ... decoding returns
+// metadata equal to the original"), across a history: a component derives its
+// own context from the default one — for a code unknown to the default
+// context, or overriding a built-in transport — and afterwards the default
+// context encodes and decodes exactly as before: the code stays unknown there
+// (decodes as *Unknown, round-trips), built-in transports stay what they were.
+func VerifC11_DerivedContextLeavesDefaultAlone() {
+	override := verif_Bool("derivedContextOverridesBuiltIn")
+	code := multicodec.Code(0x3012)
+	if override {
+		code = multicodec.TransportIpfsGatewayHttp
+	}
+	pl := verif_Bytes("payload", verif_Choose("payloadLen", 0, 2))
+	enc := append(varint.ToUvarint(uint64(0x3012)), varint.ToUvarint(uint64(len(pl)))...)
+	enc = append(enc, pl...)
+	unk := &Unknown{Code: 0x3012, Payload: enc}
+	roundTrip := func() {
+		orig := Default.New(unk, &Bitswap{}, &IpfsGatewayHttp{})
+		b, err := orig.MarshalBinary()
+		verif_Assert(err == nil, "encoding succeeds")
+		dec := Default.New()
+		derr := dec.UnmarshalBinary(b)
+		verif_Assert(derr == nil, "own encoding decodes in the default context")
+		if derr != nil {
+			return
+		}
+		verif_Assert(orig.Equal(dec), "decoded metadata equals the original")
+		_, isUnknown := dec.Get(0x3012).(*Unknown)
+		verif_Assert(isUnknown, "a code the default context does not know decodes as an unknown protocol")
+		_, isGateway := dec.Get(multicodec.TransportIpfsGatewayHttp).(*IpfsGatewayHttp)
+		verif_Assert(isGateway, "a built-in transport decodes as itself")
+	}
+	roundTrip()
+	derived := Default.WithProtocol(code, func() Protocol { return &c11app{code: code} })
+	verif_Reach("derived")
+	roundTrip()
+	// the derived context knows the protocol
+	app := derived.New(&c11app{code: code, on: true}, &Bitswap{})
+	b, err := app.MarshalBinary()
+	verif_Assert(err == nil, "encoding in the derived context succeeds")
+	dec := derived.New()
+	verif_Assert(dec.UnmarshalBinary(b) == nil, "and decodes there")
+	got, ok := dec.Get(code).(*c11app)
+	verif_Assert(ok && got.on, "as the protocol registered in the derived context")
 }
